@@ -126,7 +126,7 @@ func shard(a []string) int {
 		return core.ExitTrouble
 	}
 	// Safety net only: a wall-clock watchdog that exits 2, never VIOLATION.
-	limit := 12 * time.Minute
+	limit := 25 * time.Minute
 	if tier == "thorough" {
 		limit = 8 * time.Hour
 	}
